@@ -240,7 +240,7 @@ def main(argv=None):
                 return ("not", (h, "native reconstruction found no witness: " + out.strip()[:200]))
             d = pool.acquire()
             try:
-                tests, pout = K.concrete_playback(h, d)
+                tests, pout = K.concrete_playback(h, d, base_time=r.time)
             finally:
                 pool.release(d)
             if not tests and getattr(h, "hang", False) and h.kv.get("hang_domain"):
@@ -250,7 +250,10 @@ def main(argv=None):
                          f"    kani::concrete_playback_run(concrete_vals, {h.name});\n}}\n" for v in range(int(h.kv["hang_domain"]))]
             if not tests:
                 # unwinding / timeouts etc.: cannot produce a concrete input -> inconclusive, never VIOLATION
-                return ("not", (h, "no concrete playback produced"))
+                why = "concrete playback timed out" if "concrete playback timed out" in pout else "no concrete playback produced"
+                with open(os.path.join(C.BUILD, "logs", h.name + ".playback.log"), "w") as f:
+                    f.write(pout[-200000:])
+                return ("not", (h, why))
             rep = None
             used = None
             for t in tests[:8]:
